@@ -421,6 +421,7 @@ RT = True
 TRUSTED = ["np.round = exact round-half-to-even (rne); floats as reals (the statement's 'zero' / 'unchanged' hold exactly here, up to rounding in floating point)",
            "SUMD(f, D): the finite sum over the coordinates, uninterpreted; used facts, each assumed as an instance for concrete term functions: non-negative terms give a non-negative sum, "
            "equal terms equal sums, smaller terms smaller sums, zero terms a zero sum; sqrt is non-negative, monotone, sqrt(x)^2 = x for x >= 0",
-           "Minkowski's inequality (l2 triangle from the coordinate-wise triangle, which IS proved): cited, instance assumed",
+           "l2 triangle from the coordinate-wise triangle (which is proved here): Lean theorem l2_triangle_of_coordinatewise (lemmas/lean/Lemmas.lean, machine-checked by Lean 4 + Mathlib); its instance for the concrete term functions is assumed",
            "lemma instances are instantiated by hand in the law units (each names the lemma it instantiates; the lemmas themselves are proved for all arguments in the lemma units)",
            "sklearn check_pairwise_arrays / _euclidean_distances contracts; Mahalanobis identities (identity precision = periodic Euclid, L L^T = whitening) follow from the proved quadratic-form formula and are checked at run time only"]
+LEAN_LEMMAS = "lemmas/lean/Lemmas.lean"
